@@ -70,11 +70,37 @@ def uePopOp : Handler
     | _, _, _, _, _, _ => badOp
   | _ => badOp
 
+/-- `uesuci <imsi> <mncLen> <ueNumber>`; the specification: the null-scheme SUCI of MCC, MNC, MSIN + ueNumber
+    (defined while the MSIN digits hold the sum) -/
+def ueSuciOp : Handler
+  | [imsi, mncLen, idx] =>
+    match hexArg imsi, intArg mncLen, intArg idx with
+    | some imsi, some mncLen, some idx =>
+      let ue := createUE imsi idx [107] [111, 112, 99] [111, 112]
+      let m := match Model.Suci.encodeSuci (Model.Suci.trimImsiPrefix ue.supi) mncLen with
+        | .ok b => "ok " ++ toHex b
+        | .error e => e.tag
+      let spec :=
+        match splitImsi imsi mncLen with
+        | some (mcc, mnc, msin) =>
+          let v := msin.foldl (fun a d => a * 10 + d) 0
+          if imsi.length ≤ 18 && 0 ≤ idx && v + idx.toNat < 10 ^ msin.length then
+            let msin' := (decW msin.length (v + idx.toNat)).map fun c => c.toNat - 48
+            match Spec.Identity.encodeSuci (Spec.Identity.nullSchemeSuci mcc mnc msin') with
+            | some b => "ok " ++ toHex b
+            | none => "undef"
+          else "undef"
+        | none => "undef"
+      (m, spec)
+    | _, _, _ => badOp
+  | _ => badOp
+
 end Ue
 open Ue in
 def ueHandlers : List (String × Handler) := [
   ("createue", createUeOp),
   ("uecap", ueCapOp),
+  ("uesuci", ueSuciOp),
   ("uepop", uePopOp)
 ]
 
